@@ -705,6 +705,23 @@ func execC02Idle(ctx *core.Ctx, ref core.CaseRef, r *rand.Rand) {
 		viol("idle.fired_before_idle_timeout", fmt.Sprintf("%s window delivered %v after the last Emit started although no event passed window_end+MAXOUTOFORDERNESS and IDLETIMEOUT is %dms", kind, el, idleMs))
 		return
 	}
+	// The idle path has moved the watermark to the wall clock (about 5 s after every event).  Stragglers that
+	// are newer than every earlier event but several seconds older than that watermark are late (no allowed
+	// lateness here): they must not change any result, nor pull the watermark back so that a fired window
+	// is delivered again.
+	rec.Quiesce(3, 60*time.Millisecond, 2*time.Second)
+	before := rec.Deliveries()
+	for j, d := range []int64{300, 1500, 2600} {
+		rec.Emit(Row{"id": 100 + j, "ts": t0 + d, "k": "a", "v": 1})
+	}
+	time.Sleep(time.Duration(2*idleMs+400) * time.Millisecond) // two idle periods and a watermark tick
+	rec.Quiesce(3, 60*time.Millisecond, 2*time.Second)
+	after := rec.Deliveries()
+	ctx.Count("idle.straggler_probes", 1)
+	if len(after) != len(before) {
+		viol("idle.late_straggler_changed_results", fmt.Sprintf("%s window, IDLETIMEOUT=%dms: %d events at now−5s were delivered after the source went idle (watermark = wall clock); rows at +300, +1500 and +2600 ms arriving after that are several seconds older than the watermark and ALLOWEDLATENESS is 0, yet further results were delivered: %v", kind, idleMs, n, after[len(before):]))
+		return
+	}
 	ctx.Count("idle.cases", 1)
 	ctx.Case(fmt.Sprintf("idle|%s|%d", kind, n), true, map[string]any{"sql": c.SQL, "events": n, "fired_after_ms": tSeen.Sub(lastEmit).Milliseconds()})
 }
